@@ -133,6 +133,12 @@ type Env struct {
 	Dead  bool
 	Stats *pagedrv.StatsObserver
 	Full  int // number of operations that failed because the file is full
+
+	// fault injection (C06 fault pass): errors of an operation during which an
+	// injected I/O failure occurred are the expected reaction
+	TolerateFaults bool
+	Faulted        int
+	faultMark      int
 }
 
 func (e *Env) violate(class, format string, args ...interface{}) {
@@ -265,6 +271,11 @@ func (e *Env) Flushed() int { return e.BaseFlushed + int(e.CBFlushed) }
 
 // failure classification of a writer-side error
 func (e *Env) writerErr(what string, err error) {
+	if e.TolerateFaults && e.Disk.Faults > e.faultMark {
+		e.Faulted++
+		e.obs("%s=io-error", what)
+		return
+	}
 	if IsFull(err) || e.tight() {
 		e.Full++
 		e.obs("%s=full", what)
